@@ -1736,6 +1736,7 @@ def probe(ctx):
     rng = np.random.default_rng(ctx.np_seed + 17)
     meas = {}
     replay_corpus(ctx, meas)
+    buffer_reuse_block(ctx)
     kinds = ['complex', 'real', 'basis', 'repeated', 'parallel']
     nrep = 6 if ctx.quick() else 12
     count = 0
@@ -1954,6 +1955,121 @@ def probe(ctx):
     ctx.assumptions.append('"nuclear norm of a separable realignment <= 1", "concurrence of a separable two-qubit state = 0" (Wootters) and the irrep-block reformulation of the extension SDP are not proved in Lean; they are probed')
 
 
+# ---------------------------------------------------------------------------------------------------------------
+# input class "buffer reuse across calls": a result must not be changed by a later call with a DIFFERENT input of the same size
+# ---------------------------------------------------------------------------------------------------------------
+def _leaves(x):
+    """the arrays / tensors inside a returned value (tuples, lists, dicts are walked; scalars ignored)"""
+    try:
+        import torch
+        if isinstance(x, torch.Tensor):
+            return [x]
+    except Exception:
+        pass
+    if isinstance(x, np.ndarray):
+        return [x]
+    if isinstance(x, dict):
+        return [l for v in x.values() for l in _leaves(v)]
+    if isinstance(x, (list, tuple)):
+        return [l for v in x for l in _leaves(v)]
+    return []
+
+
+def _snapshot(x):
+    import copy
+    return copy.deepcopy(x)
+
+
+def _same_value(a, b):
+    la, lb = _leaves(a), _leaves(b)
+    if len(la) != len(lb):
+        return False
+    for u, v in zip(la, lb):
+        u, v = np.asarray(u.detach() if hasattr(u, 'detach') else u), np.asarray(v.detach() if hasattr(v, 'detach') else v)
+        if u.shape != v.shape or u.dtype != v.dtype or not np.array_equal(u, v, equal_nan=True):
+            return False
+    if not la:
+        try:
+            return bool(a == b)
+        except Exception:
+            return True
+    return True
+
+
+def _shares(a, b):
+    for u in _leaves(a):
+        for v in _leaves(b):
+            if hasattr(u, 'data_ptr') and hasattr(v, 'data_ptr'):
+                if u.numel() and v.numel() and u.data_ptr() == v.data_ptr():
+                    return True
+            elif isinstance(u, np.ndarray) and isinstance(v, np.ndarray) and u.size and v.size and np.shares_memory(u, v):
+                return True
+    return False
+
+
+def check_buffer_reuse(ctx, name, f, A, B, descA, descB, valid=None):
+    """`r1 = f(A)`, then `f(B)` with a different input of the same size: `r1` must be unchanged, must not share memory with the new result
+    and must still be valid for A; then `r1` is vandalised in place and `f(B)`, `f(A)` must still return the right values.
+    Failing input = the history `[f(A), f(B)]`, key `<fn>:result-overwritten-by-next-call`"""
+    rp = dict(op=name, buffer_reuse=True, history=[dict(call=name, input=descA), dict(call=name, input=descB)])
+    key = f'{name}:result-overwritten-by-next-call'
+    ctx.count('probe-buffer-reuse')
+
+    def run():
+        r1 = f(A); c1 = _snapshot(r1)
+        r2 = f(B); c2 = _snapshot(r2)
+        if not _same_value(r1, c1):
+            ctx.fail(key, f'the value returned by {name}(A) was changed by the later call {name}(B) with a different input of the same size', rp); return
+        if _shares(r1, r2):
+            ctx.fail(key, f'{name}(A) and {name}(B) return objects that share memory: the second call overwrites what the first caller holds', rp); return
+        if valid is not None and not valid(r1, A):
+            ctx.fail(key, f'after {name}(B) the value returned earlier by {name}(A) is no longer valid for A', rp); return
+        for l in _leaves(r1):       # vandalise what was returned
+            try:
+                if hasattr(l, 'detach'):
+                    l.detach().mul_(0).add_(7)
+                elif l.flags.writeable:
+                    l[...] = 7
+            except Exception:
+                pass
+        r3, r4 = f(B), f(A)
+        if not _same_value(r3, c2) or not _same_value(r4, c1):
+            ctx.fail(key, f'after the caller modified the array returned by {name}(A) in place, {name} returns different values ({name}(B) '
+                     f'{"ok" if _same_value(r3, c2) else "changed"}, {name}(A) {"ok" if _same_value(r4, c1) else "changed"}): a shared workspace / cache is handed out', rp); return
+        ctx.probe_ok(('buffer-reuse', name, str(descA)[:40]))
+    safely(ctx, f'{name}:raises', rp, run)
+
+
+def buffer_reuse_block(ctx):
+    """deterministic block (both tiers): every function in the scope of C05 that returns an array / list / tuple of arrays"""
+    import numqi
+    E, S = numqi.entangle, numqi.state
+    rng = np.random.default_rng(20240913)
+    for dim in ((2, 2), (2, 3), (3, 3), (2, 2, 2)):
+        A, _ = make_separable(rng, dim, 3, 'complex'); B, _ = make_separable(rng, dim, 2, 'real')
+        dA, dB = rho_desc(A, dim, 'separable'), rho_desc(B, dim, 'separable')
+        check_buffer_reuse(ctx, 'is_generalized_ppt', lambda r: E.is_generalized_ppt(r, dim, return_info=True), A, B, dA, dB)
+        if len(dim) == 2:
+            stA = np.stack([A, B, A]); stB = np.stack([B, A, B])
+            check_buffer_reuse(ctx, 'get_ppt_boundary', lambda r: E.get_ppt_boundary(r, dim), stA, stB, dict(batch=[dA, dB, dA]), dict(batch=[dB, dA, dB]))
+            check_buffer_reuse(ctx, 'get_generalized_ppt_boundary', lambda r: E.get_generalized_ppt_boundary(r, dim), A, B, dA, dB) if hasattr(E, 'get_generalized_ppt_boundary') else None
+    for d in (2, 3):
+        check_buffer_reuse(ctx, 'state.Werner', lambda a: S.Werner(d, a), 0.25, -0.5, dict(d=d, alpha=0.25), dict(d=d, alpha=-0.5),
+                           valid=lambda r, a: abs(np.trace(r) - 1) < 1e-12 and np.allclose(r, S.Werner(d, a).copy()))
+        check_buffer_reuse(ctx, 'state.Isotropic', lambda a: S.Isotropic(d, a), 0.1, 0.3, dict(d=d, alpha=0.1), dict(d=d, alpha=0.3),
+                           valid=lambda r, a: abs(np.trace(r) - 1) < 1e-12)
+    check_buffer_reuse(ctx, 'state.Bell', lambda i: S.Bell(i), 0, 3, dict(index=0), dict(index=3), valid=lambda r, i: abs(np.vdot(r, r) - 1) < 1e-12)
+    check_buffer_reuse(ctx, 'state.get_bes2x4_Horodecki1997', lambda b: S.get_bes2x4_Horodecki1997(b), 0.2, 0.7, dict(b=0.2), dict(b=0.7), valid=lambda r, b: abs(np.trace(r) - 1) < 1e-12)
+    check_buffer_reuse(ctx, 'state.get_bes3x3_Horodecki1997', lambda a: S.get_bes3x3_Horodecki1997(a), 0.2, 0.7, dict(a=0.2), dict(a=0.7), valid=lambda r, a: abs(np.trace(r) - 1) < 1e-12)
+    SX = E.symext
+    check_buffer_reuse(ctx, 'symext.get_cvxpy_transpose0213_indexing', lambda n: SX.get_cvxpy_transpose0213_indexing(*n), (2, 3), (3, 2), dict(N0=2, N1=3), dict(N0=3, N1=2),
+                       valid=lambda r, n: sorted(int(x) for x in r) == list(range((n[0] * n[1]) ** 2)))
+    check_buffer_reuse(ctx, 'symext.get_symmetric_extension_index_list', lambda a: SX.get_symmetric_extension_index_list(*a), (2, 2, 3, '2d'), (2, 2, 3, '1d'),
+                       dict(dimA=2, dimB=2, kext=3, kind='2d'), dict(dimA=2, dimB=2, kext=3, kind='1d'))
+    check_buffer_reuse(ctx, 'symext.get_symmetric_extension_index_list', lambda a: SX.get_symmetric_extension_index_list(*a), (2, 3, 2, '2d'), (3, 2, 2, '2d'),
+                       dict(dimA=2, dimB=3, kext=2, kind='2d'), dict(dimA=3, dimB=2, kext=2, kind='2d'))
+
+
 def statements_not_proved(files):
     """target theorems kept as `def ….Statement : Prop` (full statement type-checked, not proved)"""
     import re
@@ -2107,7 +2223,9 @@ def replay(ctx, payload):
     """bin/check C05 --replay file: rebuild the recorded state and run every criterion on it"""
     rp = payload.get('replay', {})
     meas = {}
-    if 'dim' in rp:
+    if rp.get('buffer_reuse'):
+        buffer_reuse_block(ctx)         # deterministic: the recorded history [f(A), f(B)] is part of it
+    elif 'dim' in rp:
         rho, dim = rebuild(rp)
         if payload.get('key', '').endswith(':index'):
             check_index_layer(ctx, rho, dim, 'replay', rp)
